@@ -288,6 +288,7 @@ fn main() {
     );
     let dest = PathBuf::from(std::env::var("OUT_DIR").unwrap()).join("api_gen.rs");
     fs::write(dest, out).unwrap();
+<<<<<<< HEAD
     data_api(&dep);
     command_api(&dep);
 }
@@ -432,5 +433,147 @@ fn command_api(dep: &str) {
         list(&fns)
     );
     let dest = PathBuf::from(std::env::var("OUT_DIR").unwrap()).join("command_api_gen.rs");
+=======
+    wal_scan(&dep);
+}
+
+/// C09 / C10 / C14: entry points, enum variants, config fields and PRIVATE constants of the WAL /
+/// segment / checkpoint / gossip sources, derived from the tree the binary is built against
+/// (`OUT_DIR/wal_gen.rs`, included by `src/c09.rs`).  The public constants are taken from the crate
+/// itself.  A list that comes out empty makes the check fail (`…:coverage:source-scan-failed`).
+fn wal_scan(dep: &str) {
+    let read = |rel: &str| -> String {
+        let f = PathBuf::from(dep).join(rel);
+        println!("cargo:rerun-if-changed={}", f.display());
+        fs::read_to_string(&f).unwrap_or_default()
+    };
+    // variants of `pub enum <name>` (identifiers at 4 spaces of indentation)
+    let variants = |src: &str, name: &str| -> Vec<String> {
+        let mut v = Vec::new();
+        let mut inside = false;
+        for line in src.lines() {
+            if line.starts_with(&format!("pub enum {} ", name)) || line.starts_with(&format!("pub enum {}{{", name)) {
+                inside = true;
+                continue;
+            }
+            if inside {
+                if line.starts_with('}') {
+                    break;
+                }
+                if line.starts_with("    ") && !line.starts_with("     ") {
+                    let id: String = line.trim_start().chars().take_while(|c| c.is_alphanumeric() || *c == '_').collect();
+                    if !id.is_empty() && id.chars().next().unwrap().is_uppercase() {
+                        v.push(id);
+                    }
+                }
+            }
+        }
+        v
+    };
+    // `pub fn` / `pub async fn` / (traits: `fn`) names inside the block that starts with a line beginning with `head`
+    let fns = |src: &str, head: &str, all: bool| -> Vec<String> {
+        let mut v = Vec::new();
+        let mut inside = false;
+        for line in src.lines() {
+            if line.starts_with(head) {
+                inside = true;
+                continue;
+            }
+            if inside {
+                if line.starts_with('}') {
+                    break;
+                }
+                let t = line.trim_start();
+                let indent = line.len() - t.len();
+                if indent == 4 && (t.starts_with("pub fn ") || t.starts_with("pub async fn ") || (all && (t.starts_with("fn ") || t.starts_with("async fn ")))) {
+                    let after = t.split("fn ").nth(1).unwrap_or("");
+                    let id: String = after.chars().take_while(|c| c.is_alphanumeric() || *c == '_').collect();
+                    v.push(id);
+                }
+            }
+        }
+        v
+    };
+    // fields of `pub struct <name> {`
+    let fields = |src: &str, name: &str| -> Vec<String> {
+        let mut v = Vec::new();
+        let mut inside = false;
+        for line in src.lines() {
+            if line.starts_with(&format!("pub struct {} {{", name)) {
+                inside = true;
+                continue;
+            }
+            if inside {
+                if line.starts_with('}') {
+                    break;
+                }
+                let t = line.trim_start();
+                if line.starts_with("    pub ") {
+                    let id: String = t[4..].chars().take_while(|c| c.is_alphanumeric() || *c == '_').collect();
+                    v.push(id);
+                }
+            }
+        }
+        v
+    };
+    // value of `const NAME: T = <number>;`
+    let konst = |src: &str, name: &str| -> String {
+        for line in src.lines() {
+            let t = line.trim_start().trim_start_matches("pub ");
+            if t.starts_with(&format!("const {}:", name)) {
+                if let Some(v) = t.split('=').nth(1) {
+                    let v = v.trim().trim_end_matches(';').trim();
+                    let num: String = v.chars().filter(|c| c.is_ascii_digit()).collect();
+                    if !num.is_empty() && v.chars().all(|c| c.is_ascii_digit() || c == '_') {
+                        return num;
+                    }
+                    // byte-string constants: b"RCHK"
+                    if let Some(q) = v.split('"').nth(1) {
+                        return format!("{:?}", q);
+                    }
+                }
+            }
+        }
+        "0".to_string()
+    };
+    let actor = read("src/streaming/wal_actor.rs");
+    let config = read("src/streaming/wal_config.rs");
+    let store = read("src/streaming/wal_store.rs");
+    let wal = read("src/streaming/wal.rs");
+    let seg = read("src/streaming/segment.rs");
+    let chk = read("src/streaming/checkpoint.rs");
+    let gossip = read("src/replication/gossip.rs");
+    let crdt = read("src/replication/state/crdt_value.rs");
+    let list = |v: &Vec<String>| v.iter().map(|s| format!("{:?}", s)).collect::<Vec<_>>().join(", ");
+    let mut out = String::new();
+    let mut push = |name: &str, v: Vec<String>| out.push_str(&format!("pub const {}: &[&str] = &[{}];\n", name, list(&v)));
+    push("WAL_MESSAGES", variants(&actor, "WalMessage"));
+    push("FSYNC_POLICIES", variants(&config, "FsyncPolicy"));
+    push("WAL_ERRORS", variants(&store, "WalError"));
+    push("WAL_HANDLE_FNS", fns(&actor, "impl WalActorHandle", false));
+    push("WAL_CONFIG_FIELDS", fields(&config, "WalConfig"));
+    push("WAL_CONFIG_FNS", fns(&config, "impl WalConfig", false));
+    push("WAL_STORE_TRAIT_FNS", fns(&store, "pub trait WalStore", true));
+    push("WAL_WRITER_TRAIT_FNS", fns(&store, "pub trait WalFileWriter", true));
+    push("WAL_ROTATOR_FNS", fns(&wal, "impl<S: WalStore> WalRotator<S>", false));
+    push("WAL_ENTRY_FNS", fns(&wal, "impl WalEntry", false));
+    push("WAL_READER_FNS", fns(&wal, "impl WalReader", false));
+    push("WAL_WRITER_FNS", fns(&wal, "impl<W: WalFileWriter> WalWriter<W>", false));
+    push("SEGMENT_READER_FNS", fns(&seg, "impl SegmentReader", false));
+    push("SEGMENT_WRITER_FNS", fns(&seg, "impl SegmentWriter", false));
+    push("SEGMENT_ERRORS", variants(&seg, "SegmentError"));
+    push("CHECKPOINT_READER_FNS", fns(&chk, "impl<'a> CheckpointReader<'a>", false));
+    push("CHECKPOINT_WRITER_FNS", fns(&chk, "impl CheckpointWriter", false));
+    push("CHECKPOINT_ERRORS", variants(&chk, "CheckpointError"));
+    push("GOSSIP_MESSAGES", variants(&gossip, "GossipMessage"));
+    push("CRDT_VARIANTS", variants(&crdt, "CrdtValue"));
+    out.push_str(&format!("pub const SRC_WAL_CHANNEL_CAPACITY: usize = {};\n", konst(&actor, "WAL_CHANNEL_CAPACITY")));
+    out.push_str(&format!("pub const SRC_SEGMENT_HEADER_SIZE: usize = {};\n", konst(&seg, "HEADER_SIZE")));
+    out.push_str(&format!("pub const SRC_SEGMENT_FOOTER_SIZE: usize = {};\n", konst(&seg, "FOOTER_SIZE")));
+    out.push_str(&format!("pub const SRC_CHECKPOINT_HEADER_SIZE: usize = {};\n", konst(&chk, "CHECKPOINT_HEADER_SIZE")));
+    out.push_str(&format!("pub const SRC_CHECKPOINT_VERSION: usize = {};\n", konst(&chk, "CHECKPOINT_VERSION")));
+    out.push_str(&format!("pub const SRC_CHECKPOINT_MAGIC: &str = {};\n", konst(&chk, "CHECKPOINT_MAGIC")));
+    let dest = PathBuf::from(std::env::var("OUT_DIR").unwrap()).join("wal_gen.rs");
+>>>>>>> build-wal
     fs::write(dest, out).unwrap();
 }
